@@ -1,10 +1,18 @@
 SPEC_PART = dict(
     props_file="C14_theta",
     legs=[dict(family="theta", focus="malformed", oracles=["no_panic", "roundtrip_ok"], profiles=["debug", "release"],
-               mask=[7, 12, 13, 15], n_quick=150, n_thorough=2000, panic_is_violation=True)],
+               mask=[7, 12, 13, 15, 17, 18], n_quick=150, n_thorough=2000, panic_is_violation=True)],
     trusted=["the set of modelled panic sites is what I read in theta/sketch.rs and theta/bit_pack.rs (asserts, unreachable!, "
-             "indexing, shifts, subtraction/addition overflow)"],
-    assumptions=["inputs are byte strings (every element below 256)"],
+             "indexing, shifts, subtraction/addition overflow)",
+             "CompactThetaSketch::lower_bound()/upper_bound() end in `.expect(\"compact theta should always be valid\")`: the only "
+             "Err exit of binomial_bounds is theta outside (0, 1], excluded by 0 < theta <= 2^63-1 of every accepted value "
+             "(c14_theta_ok_is_usable); the ln/sqrt code of common/binomial_bounds.rs itself is not modelled - the harness calls the "
+             "bounds (1, 2, 3 std devs) on every accepted value in both profiles",
+             "distinctness of the entries of an unordered image is not checked by the crate's reader (nor the C++ one) and is not "
+             "part of c_safe / c_wf: `[5,5,5]` unordered is accepted with estimate 3"],
+    assumptions=["inputs are byte strings (every element below 256)",
+                 "any reader seed: one whose 16-bit seed hash is zero is answered with Err (c14_theta_zero_seed_hash_is_err; the "
+                 "unrepaired crate panicked: known_findings.d/theta-zero-seed-hash-panic.json)"],
     covers="theta: c_deserialize never reaches a modelled panic site for any byte string (running out of loop fuel counts as "
            "one); Ok => well-formed for both writers (entries in (0, theta), theta in [1, 2^63-1], ascending when ordered, flagged "
            "empty only without entries and with theta = 2^63-1, seed hash the reader's unless empty, < 2^32 entries), hence "
